@@ -553,7 +553,9 @@ def run(ctx):
         'stats': st, 'exhaustive': True,
         'rule': 'complete one-step mutation closure of %d seed documents over a %d-symbol alphabet (delete, truncate, replace, insert at every '
                 'offset%s), every string of length <= %d over a 12-token alphabet as whole document, as 3.0 and 2.0 grid body and as scalar under '
-                'both versions, %d semantically broken scalars alone / in metadata / in a cell, and 3 stdout environments on the error path; '
+                'both versions, %d semantically broken or odd scalars alone / in metadata / in a cell, every escape form of both quoted literals through the scalar API, '
+                'runs of 40 and 400 copies of 16 tokens in unterminated / unbalanced places (termination), 3.0-only constructs in nested grids that declare a pre-3.0 '
+                'version (3 versions x 5 kinds x 4 positions), a version-table stress, and 3 stdout environments on the error path; '
                 'distinct = distinct text; a case is non-trivial when it differs from its seed' % (
                     len(SEEDS), len(ALPHA_QUICK if ctx.quick else ALPHA_FULL), '' if ctx.quick else ', every splice of two bracketed spans',
                     3 if ctx.quick else 4, len(BROKEN_SCALARS)),
